@@ -364,6 +364,18 @@ def F31():
     return bool(bad), f"scalar np.int64 input, sub-period values are arrays: {bad[:2]}"
 
 
+def F32():
+    import numpy as np
+
+    a = mk(D(2020, 1, 1), D(2020, 12, 31), D(2020, 12, 31), {"x": np.array(5.0)})
+    b = mk(D(2020, 1, 1), D(2020, 12, 31), D(2020, 12, 31), {"x": 5.0})
+    c = mk(D(2020, 1, 1), D(2020, 12, 31), D(2020, 12, 31), {"x": np.array([[1, 2], [3, 4]])})
+    try:
+        return not (a == b and hash(a) == hash(b) and hash(c) == hash(c)), "equal cells hash differently"
+    except TypeError as ex:
+        return True, f"hash(Cell) raised TypeError: {ex}"
+
+
 ALL = {k: v for k, v in globals().items() if k[:1] in "FG" and k[1:].isdigit() and callable(v)}
 
 if __name__ == "__main__":
